@@ -20,6 +20,8 @@ MODS = [M + f for f in (
     "upipe_idem.c", "upipe_dup.c", "upipe_setattr.c", "upipe_setflowdef.c", "upipe_probe_uref.c", "upipe_skip.c", "upipe_htons.c",
     "upipe_delay.c", "upipe_match_attr.c", "upipe_null.c", "upipe_queue_sink.c", "upipe_queue_source.c", "upipe_queue.c",
     "upipe_aggregate.c", "upipe_chunk_stream.c", "upipe_time_limit.c", "upipe_genaux.c", "upipe_buffer.c", "upipe_rate_limit.c",
+    "upipe_burst.c", "upipe_convert_to_block.c", "upipe_discard_blocking.c", "upipe_dump.c", "upipe_noclock.c", "upipe_nodemux.c",
+    "upipe_setrap.c",
 )]
 PIPEX = CORE + MODS + [E + "vmock_upump.c", E + "simfd.c"]
 
@@ -342,10 +344,13 @@ CHECKS["C14"] = {
 
 
 CAT_ROWS = ["skip>htons", "setattr>delay>idem", "idem", "skip", "htons", "delay", "setattr", "setflowdef", "probe_uref", "match_attr", "null", "dup", "time_limit", "genaux",
-            "buffer", "rate_limit", "qsink", "agg", "chunk", "ts_sync", "ts_check", "ts_align", "ts_psi_split", "ts_split"]
-CAT_HEAVY = {"buffer": 1, "setattr>delay>idem": 1}
+            "buffer", "rate_limit", "qsink", "agg", "chunk", "ts_sync", "ts_check", "ts_align", "ts_psi_split", "ts_split",
+            "burst", "convert_to_block", "discard_blocking", "dump", "noclock", "nodemux", "setrap"]
+CAT_HEAVY = {"buffer": 1, "setattr>delay>idem": 1, "ts_split": 1, "ts_psi_split": 1}
 
-C20_HEAVY = {"rate_limit": 1, "ts_sync": 1, "time_limit": 1, "qsink": 1}   # two instances per history
+C20_HEAVY = {"rate_limit": 1, "ts_sync": 1, "time_limit": 1, "qsink": 1, "skip>htons": 1, "buffer": 0, "skip": 1, "dup": 1, "genaux": 1, "delay": 1, "setattr": 1, "setflowdef": 1, "match_attr": 1}   # two instances per history
+
+CAT_GENERIC = ("burst", "convert_to_block", "discard_blocking", "dump", "noclock", "nodemux", "setrap")
 
 def _cat_jobs(oracle, tier, rows=CAT_ROWS, pools=(0, 2)):
     q = tier == "quick"
@@ -353,7 +358,9 @@ def _cat_jobs(oracle, tier, rows=CAT_ROWS, pools=(0, 2)):
     for r in rows:
         d = (5 if q else 6) - CAT_HEAVY.get(r, 0) - (C20_HEAVY.get(r, 0) if oracle == "C20" else 0)
         # (pool, who provides managers: 0 the probes / 1 the sinks with shared managers, depth)
-        if q:
+        if r in CAT_GENERIC:
+            axes = [(pools[0], 0, 4)] if q else [(pools[0], 0, 5), (pools[-1], 1, 5)]
+        elif q:
             axes = [(pools[0], 0, d)] + [(p, 1, d - 1) for p in pools[1:]]
         else:
             axes = [(pools[0], 0, d)] + [(p, 1, d) for p in pools[1:]] + [(pools[0], 1, d - 1)] + [(p, 0, d - 1) for p in pools[1:]]
@@ -361,14 +368,14 @@ def _cat_jobs(oracle, tier, rows=CAT_ROWS, pools=(0, 2)):
             jobs.append(("pipex_cat", ["--row", r, "--oracle", oracle, "--pool", pool, "--prov", prov, "--depth", depth, "--deadline", 75 if q else 840]))
     return jobs
 
-_CAT_BOUNDS = {"quick": "24 catalogue rows (22 pipes + 2 chains): every sequence of up to 5 operations (4 for buffer and the 3-pipe chain) with pool depth 0 and managers provided by the probes, and up to 4 (3) operations with pool depth 2 and managers provided by the sinks (shared managers), over the row's alphabet "
+_CAT_BOUNDS = {"quick": "31 catalogue rows (29 pipes + 2 chains): every sequence of up to 5 operations (4 for buffer and the 3-pipe chain) with pool depth 0 and managers provided by the probes, and up to 4 (3) operations with pool depth 2 and managers provided by the sinks (shared managers), over the row's alphabet "
                         "(set_flow_def F1/F2/foreign, 5 input shapes incl. empty, 3+2-segment and shared-segment buffers, set_output S0/S1(rejecting)/NULL, sink answer toggle, flush, "
                         "every option setter x 3-4 values, subpipe alloc/set_output/release, pump dispatch, an upstream request whose answer makes the upstream push a buffer, "
                         "a probe that tears the subpipes down on source_end, release), followed by release of everything and a run of the event loop to quiescence",
                "thorough": "same alphabet, one operation deeper, all four (pool, provider) combinations"}
 _CAT_NOTE = ("Pipe-private state is not readable from outside, so histories are not merged: the full tree is enumerated up to the depth. "
              "Catalogue: idem skip htons delay setattr setflowdef probe_uref match_attr null dup(+2 output subpipes) time_limit genaux buffer rate_limit "
-             "queue_sink+queue_source(one thread, mock loop) aggregate chunk_stream ts_sync ts_check ts_align ts_psi_split(+2 filtered outputs) ts_split(+2 PID outputs), and the chains skip>htons and setattr>delay>idem; other pipe types are outside the bound.")
+             "queue_sink+queue_source(one thread, mock loop) aggregate chunk_stream ts_sync ts_check ts_align ts_psi_split(+2 filtered outputs) ts_split(+2 PID outputs) burst convert_to_block discard_blocking dump noclock nodemux setrap (the last seven with the generic oracles only), and the chains skip>htons and setattr>delay>idem; other pipe types are outside the bound.")
 
 CHECKS["C01"] = {
     "engine": "pipex", "design_ref": "DESIGN.md section 3 C01",
@@ -397,8 +404,8 @@ CHECKS["C05"] = {
     "technique": "explicit-state enumeration of all input/control sequences up to a depth on every pass-through / split / buffering catalogue pipe (real code); sequence numbers in payload and attribute checked at recording sinks against the documented transformation and a model of the output contract",
     "level_text": "Same enumeration as C01 (buffers of 0, 2, 3 and 5 octets, one or two segments, dated). Every buffer seen by a sink must be one that was input, at most once per sink, in input order, with exactly the documented change (identity; skip offset removed; octet pairs swapped; delay added to the three dates; attributes added; match_attr predicate) on payload, attributes, dates and flags; one-to-one and duplicating pipes deliver during the input call or never, to exactly the sinks a model of the output contract names (definition stored, output connected, definition accepted) - so a lost, extra or misrouted buffer is caught; holding pipes (time_limit, genaux, buffer, rate_limit, queue sink + source) keep arrival order and, when the output stays connected and accepting, deliver everything once the loop is quiescent; whatever is still held at the end is freed (accounting as in C01). Bounded, not a proof.",
     "level_note": _CAT_NOTE + " Chains: skip>htons and setattr>delay>idem only.",
-    "jobs": {"quick": _cat_jobs("C05", "quick", [r for r in CAT_ROWS if r not in ("agg", "chunk", "ts_sync", "ts_check", "ts_align", "ts_psi_split", "ts_split")]),
-             "thorough": _cat_jobs("C05", "thorough", [r for r in CAT_ROWS if r not in ("agg", "chunk", "ts_sync", "ts_check", "ts_align", "ts_psi_split", "ts_split")])},
+    "jobs": {"quick": _cat_jobs("C05", "quick", [r for r in CAT_ROWS if r not in ("agg", "chunk", "ts_sync", "ts_check", "ts_align", "ts_psi_split", "ts_split", "burst", "convert_to_block", "discard_blocking", "dump", "noclock", "nodemux", "setrap")]),
+             "thorough": _cat_jobs("C05", "thorough", [r for r in CAT_ROWS if r not in ("agg", "chunk", "ts_sync", "ts_check", "ts_align", "ts_psi_split", "ts_split", "burst", "convert_to_block", "discard_blocking", "dump", "noclock", "nodemux", "setrap")])},
     "rule": "state = one operation history (no merging); non-trivial = histories in which at least one buffer reached a sink",
     "bounds": _CAT_BOUNDS,
     "assumptions": DEFAULT_ASSUME + ["skip offsets never exceed the buffer size (undefined by the documentation)"],
@@ -411,7 +418,7 @@ CHECKS["C20"] = {
     "level_note": _CAT_NOTE,
     "jobs": {"quick": _cat_jobs("C20", "quick", pools=(0,)), "thorough": _cat_jobs("C20", "thorough")},
     "rule": "state = one operation history (no merging); non-trivial = histories in which at least one buffer reached a sink",
-    "bounds": {"quick": _CAT_BOUNDS["quick"] + "; for C20 pool depth 0 only and one operation less on rate_limit, ts_sync, time_limit, queue sink (two instances per history)",
+    "bounds": {"quick": _CAT_BOUNDS["quick"] + "; for C20 pool depth 0 only and one operation less on the rows with options or pumps (two instances per history)",
                "thorough": _CAT_BOUNDS["thorough"]},
     "assumptions": DEFAULT_ASSUME + ["genaux's initial getattr is an inline function (address not comparable across translation units): only values set by the harness are compared"],
     "job_timeout": {"quick": 300, "thorough": 1500},
@@ -426,7 +433,7 @@ def _c12_jobs(tier):
             jobs.append(("c12_request", ["--topo", topo, "--pool", pool, "--nreq", 2, "--depth", 6 if q else 8, "--deadline", 75 if q else 840]))
         jobs.append(("c12_request", ["--topo", topo, "--pool", 0, "--nreq", 3, "--depth", 5 if q else 6, "--deadline", 75 if q else 840]))
         # providers that answer inside register, and a requester whose uref_mgr callback withdraws and re-issues its uclock request
-        for (tprov, cb) in ((1, 0), (1, 1), (0, 1)):
+        for (tprov, cb) in ((1, 0), (1, 1), (0, 1), (2, 0)):
             jobs.append(("c12_request", ["--topo", topo, "--pool", 0, "--nreq", 3, "--tprov", tprov, "--cb", cb, "--depth", 5 if q else 6, "--deadline", 75 if q else 840]))
     return jobs
 
@@ -437,7 +444,7 @@ CHECKS["C12"] = {
     "level_note": "Chain length 2 (+ queue); longer chains repeat the same helper. Requests that no provider holds are answered by the real uprobe_uref_mgr / uprobe_uclock probes. Flow-format and ubuf-manager requests are not in the alphabet.",
     "jobs": {"quick": _c12_jobs("quick"), "thorough": _c12_jobs("thorough")},
     "rule": "state = one operation history (no merging); non-trivial = histories in which a provider held a registration or the head callback fired",
-    "bounds": {"quick": "5 topologies x pool depth {0,2}: all sequences of up to 6 operations with 2 request types; 3 request types up to depth 5, also with providers answering inside register and with a requester callback that withdraws and re-issues another request (mutating the request lists during re-plumbing)",
+    "bounds": {"quick": "5 topologies x pool depth {0,2}: all sequences of up to 6 operations with 2 request types; 3 request types up to depth 5, also with providers answering inside register, providers declining every request (the probes must then answer) and with a requester callback that withdraws and re-issues another request (mutating the request lists during re-plumbing)",
                "thorough": "depth 8 (2 request types) and 6 (3 request types)"},
     "assumptions": DEFAULT_ASSUME + ["a requester unregisters its requests before releasing the pipe it registered them on (ownership rule)"],
     "job_timeout": {"quick": 300, "thorough": 1500},
